@@ -63,7 +63,8 @@ Theorem c10_commute : forall R1 R2 s,
 Proof. exact hrun_proj_eq. Qed.
 
 (* c10_recompose: mapping every subcircuit back through the qubit map gives, per original wire, the original
-   instruction sequence; hence ANY interleaving R of the parts has the denotation of the original circuit *)
+   instruction sequence; hence any interleaving R of the parts THAT CARRIES THE ORIGINAL INSTANCE TAGS has the denotation
+   of the original circuit.  The literally recomposed circuit (tags forgotten) is c10_recompose_circuit below. *)
 Theorem c10_recompose : forall n cregs c labels subs qm,
   no_uuid c ->
   separate_circuit n cregs c labels = Ok (subs, qm) ->
@@ -81,6 +82,24 @@ Theorem c10_recompose : forall n cregs c labels subs qm,
     (forall k, cproj k R = cproj k (tagc c)) ->
     hrun (hinit n nc) R = denote n nc c.
 Proof. exact separate_recompose. Qed.
+
+(* instance tags are names: forgetting the tags of the interleaving and letting [denote] re-tag it in program order gives
+   the denotation of the original with its instance tags renamed by f, and f is injective on the tags in use *)
+Theorem c10_recompose_circuit : forall n cregs c labels subs qm,
+  no_uuid c ->
+  separate_circuit n cregs c labels = Ok (subs, qm) ->
+  let ls := sep_labels n c labels in
+  forall nc (R : tcirc), visible R ->
+    (forall q, hproj q R = match nth q ls None with
+                           | Some l => hproj q (restrict_tagged ls l (tagc c))
+                           | None => []
+                           end) ->
+    (forall k, cproj k R = cproj k (tagc c)) ->
+    NoDup (ctags R) ->
+    let f := retag_fun (ctags R) (ctags (tagc (map snd R))) in
+    denote n nc (map snd R) = rn_state f (denote n nc c) /\
+    (forall a b, In a (ctags R) -> In b (ctags R) -> f a = f b -> a = b).
+Proof. exact separate_recompose_circuit. Qed.
 
 (* ------------------------------------------------------------------------------------------------ *)
 (* c10_auto_idle: under automatic labelling exactly the idle qubits get None (and are dropped by separate_circuit);
@@ -155,6 +174,37 @@ Theorem c10_cuts : forall basis_of relabel dx, dx_contract dx ->
         In (mkI (Qpd1 b 0 bid lbl') [a'] []) suba /\ In (mkI (Qpd1 b 1 bid lbl') [q'] []) subq.
 Proof. exact cuts_spec. Qed.
 
+(* which gates are cut: every instruction of the cut circuit is the decision of one loop step on the input instruction at
+   the same position; it is unchanged iff barrier / at most one qubit / inside one label / already a placeholder, and is
+   otherwise REPLACED by a fresh placeholder on the same two qubits (stronger than [pcq_rel] in c10_cuts) *)
+Theorem c10_cut_decision : forall basis_of (relabel : qlabel -> nat) ls,
+  (forall c qc, pcq_loop basis_of ls c = Ok qc ->
+     forall y, In y qc -> exists i, In i c /\ pcq_step basis_of ls i = Ok y) /\
+  (forall i i', pcq_step basis_of ls i = Ok i' ->
+     (i' = i /\ (is_barrier i = true \/ length (iqs i) <= 1 \/ length (span_labels ls (iqs i)) = 1 \/ is_qpd2 i = true)) \/
+     (exists b lbl, i' = mkI (Qpd2 b None lbl) (iqs i) [] /\ length (iqs i) = 2)).
+Proof.
+  intros basis_of relabel ls. split; [exact (pcq_loop_steps basis_of ls)|exact (pcq_step_cases basis_of relabel ls)].
+Qed.
+
+(* uniqueness (as a set): when the input has no SingleQubitQPDGate whose label already ends in a number, EVERY placeholder
+   half with suffix k found in any subcircuit is half 0 or half 1 of the k-th placeholder, at that placeholder's
+   re-indexed qubit, in the partition of that qubit.  Together with c10_cuts: the halves carrying cut index k are exactly
+   these two instructions.  (Multiplicity - each occurs once - is not stated.) *)
+Theorem c10_cuts_only : forall basis_of relabel dx, dx_contract dx ->
+  forall n ncl ncr c labels obs subs bases so,
+  no_uuid c -> (forall i, In i c -> ~ numeric_half i) ->
+  partition_problem basis_of relabel dx n ncl ncr c labels obs = Ok (subs, bases, so) ->
+  let ls := labels_used n c labels in
+  exists qc, partition_circuit_qubits basis_of n c ls = Ok qc /\
+    forall l nq body x b h bid lb k,
+      In (l, nq, body) subs -> In x body -> iop x = Qpd1 b h bid (Some (lb, Some k)) ->
+      exists y lbl a q w w',
+        nth_error (qpd2s qc) k = Some y /\ iop y = Qpd2 b bid lbl /\ lb = relabel lbl /\ iqs y = [a; q] /\
+        (h = 0 /\ w = a \/ h = 1 /\ w = q) /\ nth w ls None = Some l /\
+        index_of w (omembers ls l n) = Some w' /\ x = mkI (Qpd1 b h bid (Some (lb, Some k))) [w'] [].
+Proof. exact cuts_only. Qed.
+
 (* the subcircuits of partition_problem recompose, wire by wire, to the cut circuit *)
 Theorem c10_problem_recompose : forall basis_of relabel dx, dx_contract dx ->
   forall n ncl ncr c labels obs subs bases so,
@@ -202,9 +252,9 @@ Proof. exact subobs_spec. Qed.
 Theorem c10_problem_subobs : forall basis_of relabel dx n ncl ncr c labels obs subs bases so,
   partition_problem basis_of relabel dx n ncl ncr c labels obs = Ok (subs, bases, Some so) ->
   exists ps, obs = Some ps /\ ps <> [] /\ length (labels_used n c labels) = n /\
-             (forall p, In p ps -> length (plets p) = n) /\
+             (forall p, In p ps -> length (plets p) = n /\ pphase p = 0) /\
              sub_observables (labels_used n c labels) ps = Ok so.
-Proof. exact problem_subobs. Qed.
+Proof. exact problem_subobs_full. Qed.
 
 (* ------------------------------------------------------------------------------------------------ *)
 (* totality: "for any circuit and any valid labelling, separation returns ..." *)
@@ -212,6 +262,11 @@ Theorem c10_separate_total : forall n cregs c ls,
   no_empty_instr c -> length ls = n -> valid_labelling ls c -> clbits_ok cregs c ->
   exists subs, separate_circuit n cregs c (Some ls) = Ok (subs, qmap_of ls).
 Proof. exact separate_total. Qed.
+
+Theorem c10_separate_total_auto : forall n cregs c,
+  no_empty_instr c -> in_range n c -> clbits_ok cregs c ->
+  exists subs qm, separate_circuit n cregs c None = Ok (subs, qm).
+Proof. exact separate_total_auto. Qed.
 
 Theorem c10_cutting_total : forall basis_of ls c,
   (forall i, In i c -> ~ uncuttable basis_of ls i) -> exists qc, pcq_loop basis_of ls c = Ok qc.
@@ -231,6 +286,15 @@ Theorem c10_problem_total : forall basis_of relabel dx, dx_contract dx ->
   (forall ps p q, obs = Some ps -> In p ps -> q < n -> nth q ls None = None -> nth q (plets p) 0 = 0) ->
   exists r, partition_problem basis_of relabel dx n 0 0 c labels obs = Ok r.
 Proof. exact problem_total. Qed.
+
+(* automatic labels: the conditions on the labelling follow from the shape of the input (qubits in range, >= 1 qubit and
+   no clbit per instruction, placeholders on two qubits); nothing is ever uncuttable *)
+Theorem c10_problem_total_auto : forall basis_of relabel dx, dx_contract dx ->
+  forall n c obs,
+  shape_ok n c -> obs_sizes_ok n obs -> obs_phases_ok obs ->
+  (forall ps p q, obs = Some ps -> In p ps -> q < n -> untouched c q -> nth q (plets p) 0 = 0) ->
+  exists r, partition_problem basis_of relabel dx n 0 0 c None obs = Ok r.
+Proof. exact problem_total_auto. Qed.
 
 (* ------------------------------------------------------------------------------------------------ *)
 (* c10_refusals *)
@@ -261,10 +325,14 @@ Theorem c10_idle_observable : forall ls ps,
    (forall p, In p ps -> length (plets p) = length ls) -> exists so, sub_observables ls ps = Ok so).
 Proof. exact idle_observable_spec. Qed.
 
-Theorem c10_idle_observable_problem : forall basis_of relabel dx n ncl ncr c labels ps p q r,
-  In p ps -> q < n -> nth q (labels_used n c labels) None = None -> nth q (plets p) 0 <> 0 ->
-  partition_problem basis_of relabel dx n ncl ncr c labels (Some ps) <> Ok r.
-Proof. exact idle_observable_never_ok. Qed.
+Theorem c10_idle_observable_problem : forall basis_of relabel dx, dx_contract dx ->
+  forall n c labels ps p q,
+  labels_ok n labels -> obs_sizes_ok n (Some ps) -> obs_phases_ok (Some ps) ->
+  let ls := labels_used n c labels in
+  input_ok ls c -> (forall i, In i c -> ~ uncuttable basis_of ls i) ->
+  In p ps -> q < n -> nth q ls None = None -> nth q (plets p) 0 <> 0 ->
+  partition_problem basis_of relabel dx n 0 0 c labels (Some ps) = Refused.
+Proof. exact idle_observable_refused. Qed.
 
 (* ------------------------------------------------------------------------------------------------ *)
 (* non-vacuity *)
@@ -375,6 +443,69 @@ Example c10_ex_no_uuid_needed :
   flat_map (restrict_instr [Some 0; Some 0] 0) c = c.
 Proof. split; reflexivity. Qed.
 
+(* two partitions measuring into the SAME clbit: the interleaving must keep the clbit order (cproj premise) *)
+Definition M q k := mkI Measure [q] [k].
+Definition ex5 : circ := [G 0 [0]; M 0 0; G 1 [1; 2]; M 1 0].
+Definition ex5_R : tcirc := [(1, G 1 [1; 2]); (0, G 0 [0]); (1, M 0 0); (2, M 1 0)].
+Example c10_ex_shared_clbit :
+  separate_circuit 3 [[0]] ex5 (Some ex1_labels) =
+    Ok ([(0, 1, [G 0 [0]; M 0 0]); (1, 2, [G 1 [0; 1]; M 0 0])], [Some (0, 0); Some (1, 0); Some (1, 1)]) /\
+  visible ex5_R /\
+  (forall q, hproj q ex5_R = match nth q ex1_labels None with
+                             | Some l => hproj q (restrict_tagged ex1_labels l (tagc ex5))
+                             | None => []
+                             end) /\
+  (forall k, cproj k ex5_R = cproj k (tagc ex5)) /\ NoDup (ctags ex5_R) /\
+  map snd ex5_R <> ex5 /\
+  hrun (hinit 3 1) ex5_R = denote 3 1 ex5 /\
+  denote 3 1 (map snd ex5_R) = rn_state (retag_fun (ctags ex5_R) (ctags (tagc (map snd ex5_R)))) (denote 3 1 ex5) /\
+  denote 3 1 (map snd ex5_R) <> denote 3 1 ex5.
+Proof.
+  split; [reflexivity|]. split.
+  { intros ti Hti. simpl in Hti. destruct Hti as [<-|[<-|[<-|[<-|[]]]]]; right; discriminate. }
+  split; [intros [|[|[|[|q]]]]; reflexivity|]. split; [intros [|[|k]]; reflexivity|].
+  split; [repeat constructor; simpl; intuition discriminate|].
+  split; [discriminate|]. split; [reflexivity|]. split; [reflexivity|discriminate].
+Qed.
+
+(* refusals, one per disjunct *)
+Example c10_ex_refuse_spanning : separate_circuit 3 [] ex1 (Some [Some 0; Some 0; Some 1]) = Refused.
+Proof. reflexivity. Qed.
+Example c10_ex_refuse_none_gate : separate_circuit 3 [] ex2 (Some [Some 0; None; Some 1]) = Refused.
+Proof. reflexivity. Qed.
+Example c10_ex_refuse_none_barrier : separate_circuit 3 [] ex1 (Some [Some 0; Some 1; None]) = Refused.
+Proof. reflexivity. Qed.
+Example c10_ex_refuse_count : separate_circuit 3 [] ex2 (Some [Some 0; Some 0]) = Refused.
+Proof. reflexivity. Qed.
+Example c10_ex_refuse_problem :
+  partition_problem bo rl expand_qpd2 3 0 0 ex3 (Some [Some 4; Some 4]) None = Refused /\
+  partition_problem bo rl expand_qpd2 3 0 0 ex3 None (Some [mkP 0 [3; 3]]) = Refused /\
+  partition_problem bo rl expand_qpd2 3 0 0 ex3 None (Some [mkP 1 [3; 3; 3]]) = Refused /\
+  partition_problem bo rl expand_qpd2 3 1 1 ex3 None None = Refused /\
+  partition_problem bo rl expand_qpd2 3 0 0 [G 2 [0; 1]] (Some [Some 0; Some 1; Some 1]) None = Refused /\
+  partition_problem bo rl expand_qpd2 3 0 0 [G 7 [0; 1; 2]] (Some [Some 0; Some 1; Some 1]) None = Refused.
+Proof. repeat split; reflexivity. Qed.
+Example c10_ex_no_uuid_ex3 : no_uuid ex3 /\ (forall i, In i ex3 -> ~ numeric_half i) /\ shape_ok 3 ex3.
+Proof.
+  split; [|split; [|split]].
+  - intros i Hi. simpl in Hi. destruct Hi as [<-|[<-|[<-|[<-|[<-|[]]]]]]; reflexivity.
+  - intros i Hi [b [h [bid [lb [k E]]]]]. simpl in Hi. destruct Hi as [<-|[<-|[<-|[<-|[<-|[]]]]]]; discriminate.
+  - intros i q Hi Hq. simpl in Hi. destruct Hi as [<-|[<-|[<-|[<-|[<-|[]]]]]]; simpl in Hq; lia.
+  - intros i Hi. simpl in Hi. destruct Hi as [<-|[<-|[<-|[<-|[<-|[]]]]]]; simpl;
+      (split; [discriminate|split; [reflexivity|intros; try reflexivity; try discriminate]]).
+Qed.
+(* hypotheses of c10_idle_observable_problem on ex2 with automatic labels (qubit 2 idle, observable ZZZ) *)
+Example c10_ex_idle_refused_hyps :
+  let ls := labels_used 3 ex2 None in
+  input_ok ls ex2 /\ (forall i, In i ex2 -> ~ uncuttable bo ls i) /\ nth 2 ls None = None.
+Proof.
+  cbv zeta. split; [|split; [|reflexivity]].
+  - intros i Hi. simpl in Hi. destruct Hi as [<-|[<-|[]]]; simpl;
+      (split; [discriminate|split; [reflexivity|split; [|discriminate]]]);
+      intros q Hq; simpl in Hq; repeat (destruct Hq as [<-|Hq]; [discriminate|]); destruct Hq.
+  - intros i Hi [IB [L1 [SP W]]]. simpl in Hi. destruct Hi as [<-|[<-|[]]]; simpl in *; try lia.
+Qed.
+
 (* F4 witness class on the repaired model: IZZ is answered without a None key, ZZZ is refused *)
 Example c10_ex_idle_obs_ok :
   partition_problem bo rl expand_qpd2 3 0 0 ex2 None (Some [mkP 0 [3; 3; 0]]) =
@@ -428,6 +559,11 @@ Print Assumptions c10_problem_subobs.
 Print Assumptions c10_separate_total.
 Print Assumptions c10_cutting_total.
 Print Assumptions c10_problem_total.
+Print Assumptions c10_problem_total_auto.
+Print Assumptions c10_separate_total_auto.
+Print Assumptions c10_recompose_circuit.
+Print Assumptions c10_cut_decision.
+Print Assumptions c10_cuts_only.
 Print Assumptions c10_auto_components.
 Print Assumptions c10_separate_refuses.
 Print Assumptions c10_problem_refuses.
